@@ -42,14 +42,14 @@ CLAIMED = {
          "clock-adjusted length after the previous pulse's fall, detuned-delay buffer iff off-detuning != 0, closing at the channel end); at the Sequence level, through the real decorator "
          "chains: _process_eom_parameters (the off-detuning stored and validated is the chosen one), enable_eom_mode / modify_eom_setpoint / disable_eom_mode / add_eom_pulse (EOM pulses are "
          "constant waveforms carrying exactly the block's setpoint whatever the clock stretching does; every phase-drift correction equals rate x window with the window fixed by the "
-         "specification: the buffer only / old rate up to the switch then new rate / since the last real pulse). The meaning of 'closest allowed option' (numpy argmin) and the emulated "
+         "specification: the buffer only / old rate up to the switch then new rate / since the last real pulse; the schedule writers make_next_pulse_slot / add_pulse evaluate the corrected phase at the slot's own start after rounding). The meaning of 'closest allowed option' (numpy argmin) and the emulated "
          "populations are decided by the bounded stand-in (drift oracle: phase reference vs integral of the programmed off-detuning).", "DESIGN.md section 9.3 (C15 at the Sequence level)"),
  "C16": ("proof", "Deductive (integer / algebraic core): Waveform.__init__, _check_index and _check_slice against Python's own slice semantics, durations of Constant/Ramp/"
          "Blackman and the Composite sum (loop invariant), Constant/Ramp samples (first/last/within end points; the automatic division-safety obligation finds the duration-1 ramp), "
          "change_duration and scaling of Constant/Ramp, Pulse.__init__ (equal lengths, non-negative amplitude, phases mod 2pi), Pulse.ConstantPulse, is_detuned_delay. "
          "Blackman/Kaiser/Interpolated numerics, from_max_val, finiteness and ArbitraryPhase are decided by the bounded stand-in (durations 1..40 exhaustive).", "DESIGN.md section 3 C16"),
  "C19": ("proof", "Deductive (core only): _calc_sorting_order passes the rounded columns to lexsort in reverse order for 2-D and 3-D layouts, so the canonical order is x, then y, then z "
-         "(over the numpy axiom that lexsort sorts by its last key first). Order independence, hashes, id <-> coordinate inverse, define_register, build_register order and detuning-map weights "
+         "(over the numpy axiom that lexsort sorts by its last key first); _sorted_coords / sorted_coords return the rounded coordinates taken in that canonical order and WeightMap.sorted_weights the weights taken in the canonical order of their own traps (integer-array indexing and np.array as uninterpreted functions). Order independence, hashes, id <-> coordinate inverse, define_register, build_register order and detuning-map weights "
          "are decided by the bounded stand-in on generated layouts and shuffled copies.", "DESIGN.md section 3 C19"),
  "C18": ("proof", "Deductive: check_channels_match (the real nested function) returning ('','') under strict=True implies agreement on type, basis, addressing, mod_bandwidth, "
          "fixed_retarget_t, clock_period (and min_retarget_interval when it matters); pure leaf lemmas show which timing leaves (rise time, clock rounding) depend only on those fields, "
